@@ -502,7 +502,7 @@ def main():
     print(f"translator ok (Units.lean {'rewritten' if ch1 else 'unchanged'}, Consts.lean {'rewritten' if ch2 else 'unchanged'}, "
           f"Decisions.lean {'rewritten' if ch3 else 'unchanged'}: {len(SITES) - len(unknown_sites)} of {len(SITES)} decision sites recognised"
           + (f"; NOT recognised: {', '.join(unknown_sites)}" if unknown_sites else "") + ")")
-    # function bodies (Gen/Fns.lean): a function that is not recognised is skipped, never a failure of the run
+    # function bodies (Gen/Fns<prop>.lean): a function that is not recognised is skipped, never a failure of the run
     gen_fns.main(REPO, write_if_changed)
     return 0
 
